@@ -149,10 +149,14 @@ fn main() {
                 o.set("map_spec", J::s(spec.describe()));
                 l.sample(o);
             }
+            // under the default origin and with lazer(false) (the origin flag must act the same on every representation)
+            let stable = |d: Difficulty| d.lazer(false);
+            let base_stable = run(GameMods::from(bits), &stable, map, cfg.dst);
             for (rname, mods) in reps {
-                let other = run(mods, &id, map, cfg.dst);
-                l.checked(5);
-                if let Some(msg) = differ(&base, &other) {
+                let other = run(mods.clone(), &id, map, cfg.dst);
+                let other_stable = run(mods, &stable, map, cfg.dst);
+                l.checked(10);
+                if let Some(msg) = differ(&base, &other).or_else(|| differ(&base_stable, &other_stable).map(|m| format!("with lazer(false): {m}"))) {
                     let class = format!("repr_{}", rname.split_whitespace().next().unwrap_or("").trim_start_matches('&').to_lowercase());
                     l.violation(&class, || format!("cfg={cfg:?} bits={bits} ({inter})\nu32 vs {rname}: {msg}\nspec={}\n--- .osu ---\n{}", spec.describe(), spec.text()));
                     return;
